@@ -2,8 +2,10 @@
 """keep_seed.py <prop> <A|B> <needs> <confirm-line> <check-result> : store a confirmed seeded change under /verif/seeded/"""
 import sys, os, shutil, json, glob
 pid, v, needs, confirm, result = sys.argv[1:6]
-src = '/tmp/seed/%s.out' % pid
-dst = '/verif/seeded/%s-%s' % (pid, v)
+root = os.environ.get('SEEDROOT', '/tmp/seed')
+src = '%s/%s.out' % (root, pid)
+name = os.environ.get('SEEDNAME', v)
+dst = '/verif/seeded/%s-%s' % (pid, name)
 os.makedirs(dst, exist_ok=True)
 shutil.copy(os.path.join(src, v + '.diff'), os.path.join(dst, 'patch.diff'))
 for f in glob.glob(os.path.join(src, v + '_demo.*')):
@@ -11,11 +13,11 @@ for f in glob.glob(os.path.join(src, v + '_demo.*')):
 if os.path.exists(os.path.join(src, 'notes.md')):
     shutil.copy(os.path.join(src, 'notes.md'), os.path.join(dst, 'notes.md'))
 meta = {
-    'property': pid, 'variant': v,
+    'property': pid, 'variant': name, 'round': 2 if root != '/tmp/seed' else 1,
     'needs_to_manifest': needs,
     'confirmed_in_scratch_worktree': confirm,
-    'what_i_ran': ['tools/confirm_seed.sh %s %s   (apply in /tmp/seed/%s, cargo test --workspace: 31 pass; demo fails with the change, passes without)' % (pid, v, pid),
-                   'tools/try_seed.sh seeded/%s-%s/patch.diff %s   (git -C /repo apply; ./check; git -C /repo checkout -- .)' % (pid, v, pid)],
+    'what_i_ran': ['tools/confirm_seed.sh %s %s   (apply in the scratch worktree of %s, cargo test --workspace: 31 pass; demo fails with the change, passes without)' % (pid, v, pid),
+                   'tools/try_seed.sh seeded/%s-%s/patch.diff %s   (git -C /repo apply; ./check; git -C /repo checkout -- .)' % (pid, name, pid)],
     'check_result': result,
     'origin': 'written by a sub-agent that saw only the property text and its own scratch worktree of /repo',
 }
